@@ -1572,8 +1572,10 @@ func (x *Exec) typeAssert(s *State, fr *Frame, in *ssa.TypeAssert, oname func(st
 		if isPointerLike(in.AssertedType) {
 			res = ifVal(v.T)
 		} else {
-			_, unbox, srt := x.eng.boxFuns(in.AssertedType, x.mode)
+			box, unbox, srt := x.eng.boxFuns(in.AssertedType, x.mode)
 			res = App(unbox, srt, ifVal(v.T))
+			// the payload of a value of dynamic type T is the box of some T value
+			s.assume(Implies(ok, Eq(App(box, SInt, res), ifVal(v.T))))
 		}
 	}
 	if in.CommaOk {
